@@ -1,0 +1,28 @@
+//! Verification hook (only with `--cfg excsn_fibre_verif`): every acquisition attempt on a
+//! `HybridMutex` / `HybridRwLock` is reported, before it happens, to an installed callback
+//! as `(address of the lock, kind)`, kind being one of "r" "w" "tr" "tw" "ra" "wa" (rwlock:
+//! read, write, try_read, try_write, read_async, write_async) and "l" "tl" "la" (mutex:
+//! lock, try_lock, lock_async). With nothing installed `acquire` is a no-op.
+
+use std::sync::{Arc, RwLock};
+
+/// The callback type: `(lock address, kind)`, called on the acquiring thread.
+pub type LockHook = Arc<dyn Fn(usize, &'static str) + Send + Sync>;
+
+static HOOK: RwLock<Option<LockHook>> = RwLock::new(None);
+
+pub fn install(f: LockHook) {
+  *HOOK.write().unwrap_or_else(|p| p.into_inner()) = Some(f);
+}
+
+pub fn uninstall() {
+  *HOOK.write().unwrap_or_else(|p| p.into_inner()) = None;
+}
+
+#[inline]
+pub(crate) fn acquire(addr: usize, kind: &'static str) {
+  let h = HOOK.read().unwrap_or_else(|p| p.into_inner()).clone();
+  if let Some(h) = h {
+    h(addr, kind);
+  }
+}
